@@ -57,7 +57,7 @@ func (d *Delete) Unmarshal(b []byte) error {
 
 		b = b[4:]
 		var spi uint32
-		for i := 0; i < len(b); i += 4 {
+		for i := 0; i+4 <= len(b); i += 4 {
 			spi = binary.BigEndian.Uint32(b[i : i+4])
 			d.SPIs = append(d.SPIs, spi)
 		}
